@@ -1,0 +1,38 @@
+//go:build verif
+
+package in
+
+// Contracts for the goblvc verifier (see /verif/DESIGN.md). Comments only.
+//
+// C13 (India, GSTIN): fifteen characters over 0-9 A-Z. Each of the first fourteen reads
+// 0..35 (digits, then letters); characters at odd positions (counting from 0) are doubled;
+// a product contributes quotient plus remainder by 36; the fifteenth character reads
+// (36 - sum mod 36) mod 36.
+//@ spec inVal(b int) int = ite(b >= 48 && b <= 57, b - 48, b - 65 + 10)
+//@ spec inProd(b int, i int) int = ite(i % 2 != 0, inVal(b) * 2, inVal(b))
+//@ rec inSum(s string, k int) int = ite(k <= 0, 0, inSum(s, k - 1) + inProd(s_byte(s, k - 1), k - 1) / 36 + inProd(s_byte(s, k - 1), k - 1) % 36)
+//@ spec inCheck(s string) int = (36 - inSum(s, 14) % 36) % 36
+//@ pred inAlnum(s string, lo int, hi int) bool = forall i int :: lo <= i && i < hi ==> (s_byte(s, i) >= 48 && s_byte(s, i) <= 57) || (s_byte(s, i) >= 65 && s_byte(s, i) <= 90)
+//
+//@ func charToValue(char) (r)
+//@   requires char >= 0 && char <= 1114111
+//@   ensures r == inVal(char)
+//@ func valueToChar(value) (r)
+//@   requires value >= 0 && value <= 35
+//@   ensures r == ite(value <= 9, 48 + value, 65 + value - 10)
+//
+//@ func hasValidChecksum(gstin) (err)
+//@   requires inAlnum(gstin, 0, len(gstin))
+//@   ensures [iff] err == nil <==> len(gstin) == 15 && inVal(s_byte(gstin, 14)) == inCheck(gstin)
+//@   loop 1 invariant $pos <= 14 && sum == inSum(gstin, $pos) && sum >= 0 && sum <= 70 * $pos
+//
+// The whole rule: the pattern (two digits, five letters, four digits, a letter, a character
+// 1-9 or A-Z, "Z", a digit or letter) and the check character above.
+//@ pred inUpper(s string, lo int, hi int) bool = forall i int :: lo <= i && i < hi ==> s_byte(s, i) >= 65 && s_byte(s, i) <= 90
+//@ pred inFormat(s string) bool = len(s) == 15 && digitsIn(s, 0, 2) && inUpper(s, 2, 7) && digitsIn(s, 7, 11) && inUpper(s, 11, 12) && ((s_byte(s, 12) >= 49 && s_byte(s, 12) <= 57) || (s_byte(s, 12) >= 65 && s_byte(s, 12) <= 90)) && s_byte(s, 13) == 90 && ((s_byte(s, 14) >= 48 && s_byte(s, 14) <= 57) || (s_byte(s, 14) >= 65 && s_byte(s, 14) <= 90))
+//@ pin taxCodeRegexp regexp.MustCompile(`^[0-9]{2}[A-Z]{5}[0-9]{4}[A-Z]{1}[1-9A-Z]{1}Z[0-9A-Z]{1}$`)
+//@ global taxCodeRegexp != nil && (forall s string :: reMatch(taxCodeRegexp, s) <==> inFormat(s))
+//@ func validateTaxCode(value) (err)
+//@   let code = unboxed(value, cbc.Code)
+//@   ensures [iff] typeis(value, cbc.Code) && code != "" ==> (err == nil <==> inFormat(code) && inVal(s_byte(code, 14)) == inCheck(code))
+//@   ensures [skip] !typeis(value, cbc.Code) || code == "" ==> err == nil
